@@ -264,7 +264,9 @@ def argtopk(a_plus_idx, k, axis, keepdims):
         a, idx = a_plus_idx
 
     if abs(k) >= a.shape[axis]:
-        return a_plus_idx
+        # Not ``a_plus_idx``: in the combine step that is still the *list* of
+        # per-block pairs, which the next level cannot unpack.
+        return a, idx
 
     idx2 = np.argpartition(a, -k, axis=axis)
     k_slice = slice(-k, None) if k > 0 else slice(-k)
